@@ -1028,7 +1028,8 @@ fn main() {
   let mut rng = Rng::new(args.shard_seed());
   let flavours: Vec<Flavour> = match args.get("flavour") {
     Some(f) => f.split(',').map(|s| Flavour::from_name(s).expect("flavour")).collect(),
-    None => ALL_FLAVOURS.to_vec(),
+    None if prop == "C07" => vec![Flavour::Spmc],
+    None => ALL_FLAVOURS.iter().copied().chain([Flavour::Spmc]).collect(),
   };
   if prop == "C09" || args.get("heap").is_some() {
     val::set_heap_payload(true);
@@ -1066,7 +1067,7 @@ fn main() {
     drop(w);
     let ledger = val::ledger_report();
     let meta = Meta { flavour: fl, class: "stepper".into(), cap_requested: cap, cap_reported: None, complete: true };
-    let a = oracle::analyse(&evs, &meta);
+    let a = if fl.broadcast() { oracle::analyse_broadcast(&evs, &meta) } else { oracle::analyse(&evs, &meta) };
     res.count(&format!("flavours/{}", fl.name()), 1);
     res.count("events", evs.len() as u64);
     for e in &evs {
@@ -1113,7 +1114,7 @@ fn main() {
     for f in &a.findings {
       let mut p = f.prop.to_string();
       // message loss / duplication caused by dropping futures is the cancel-safety clause of C06
-      if p == "C01" && prop == "C06" && (f.rule.starts_with("lost-value") || f.rule.starts_with("duplicate") || f.rule.starts_with("panic-in")) {
+      if (p == "C01" || p == "C07") && prop == "C06" && (f.rule.starts_with("lost-value") || f.rule.starts_with("duplicate") || f.rule.starts_with("panic-in")) {
         p = "C06".into();
       }
       findings.push((p.clone(), format!("{}/{}/{}/stepper", p, fl.name(), f.rule), f.summary.clone(), f.detail.clone()));
